@@ -163,12 +163,12 @@ def run(report, p):
                             except AnalysisError:
                                 outs = []
                             vals = [oc[1] for _, oc in outs if oc is not None and oc[0] == "return"]
-                            if len(vals) == 1 and isinstance(vals[0], str):
+                            if vals and all(isinstance(v_, str) and v_ == vals[0] for v_ in vals):  # the same name on every path through the helper
                                 judged = True
                                 tmp_name = vals[0]
                                 r1.check(tmp_name != final_name, f, call, f"the temporary name that {hf_.name}() derives for the {label} `{os.path.basename(final_name)}` is the final name itself (`{os.path.basename(tmp_name)}`): the writer opens the LIVE {label} truncating and rewrites it in place, the closing os.replace renames the file onto itself - a kill (or an exception) while writing leaves an empty or half-written {label} and every later command aborts on it", construct=f"{hf_.name}: temporary name equals the final name ({label})")
                                 r1.check(not tmp_name.endswith(ext) or tmp_name == final_name, f, call, f"the temporary name that {hf_.name}() derives for the {label} ends with the manifest extension (`{os.path.basename(tmp_name)}`): the loader parses the half-written temporary of a killed run", construct=f"{hf_.name}: temporary keeps the manifest extension ({label})")
-                                r1.check(os.path.dirname(tmp_name) == os.path.dirname(final_name), f, call, f"the temporary `{tmp_name}` does not live in the folder of `{final_name}`", construct=f"{hf_.name}: temporary in another folder ({label})")
+                                r1.check(os.path.dirname(tmp_name) == os.path.dirname(final_name), f, call, f"the temporary `{tmp_name}` does not live in the folder of `{final_name}`: below the ascmhl folder the loader's recursive walk takes the temporary a killed run leaves behind for a generation, anywhere else the final os.replace may cross a file system boundary and is not atomic", construct=f"{hf_.name}: temporary in another folder ({label})")
                     raise AnalysisError(f"{f.loc(call)}: the name of the file opened for writing is built by `{show(t)[:100]}`, a form this checker does not model" + (" (the helper was evaluated on sample names; the remaining protocol checks need the modelled form)" if judged else ""))
             if plain_final:
                 r1.check(False, f, call, "a durable history file is opened for writing under its final name and written incrementally: a crash leaves a truncated / half-written file that the next load aborts on", witness="; ".join(show(o)[:160] for o in origs))
